@@ -14,7 +14,7 @@
    states it.  IMPLEMENTATION MODEL: Parser._build_enum_type (cparser.py:957),
    EnumType.build_baseinttype (model.py:519), the reverse loop of b_new_enum_type
    (_cffi_backend.c:6480), convert_cdata_to_enum_string (:2103), Recompiler._enum_ctx
-   (recompiler.py:1116) with EnumExpr.as_python_expr / _cffi_prim_int.                       *)
+   (recompiler.py:1116) with EnumExpr.as_python_expr / _cffi_prim_int.  Line numbers: snapshot 58a6019.                     *)
 EXTENDS PlatformBV
 CONSTANTS IntBits, LongBits, Variant     \* Variant: "faithful" | "fwddict" | "signle" | "rangele"
 
